@@ -5,6 +5,11 @@ import json, os, subprocess
 
 ROOT = os.path.dirname(os.path.abspath(__file__))
 reg = json.load(open(os.path.join(ROOT, "registry.json")))
+_d = os.path.join(ROOT, "registry.d")
+if os.path.isdir(_d):
+    for _fn in sorted(os.listdir(_d)):
+        if _fn.endswith(".json"):
+            reg.update(json.load(open(os.path.join(_d, _fn))))
 props = [json.loads(l) for l in open(os.path.join(ROOT, "properties.jsonl"))]
 hooks_file = os.path.join(ROOT, "hooks.json")
 hooks = json.load(open(hooks_file)) if os.path.exists(hooks_file) else {"source_commits": []}
